@@ -23,7 +23,7 @@
    was created with (id 1).  Go behaviour that ends the process is explicit: `crashed`.
 
    The pinned code's defects are behind the switches of `cfg`. *)
-From Coq Require Import NArith List Bool.
+From Coq Require Import NArith List Bool String.
 Import ListNotations.
 Local Open Scope N_scope.
 
@@ -316,3 +316,19 @@ Definition hellos (q : list (nat * frame)) : N := N.of_nat (List.length (filter 
 Definition potential (a : astate) : N := a_execs a + hellos (a_queue a).
 
 Definition live (s : state) (k : nat) (i : N) : Prop := a_status (actors s k) = Live i.
+
+(* ---------- what the labels stand for in the source (tied to /repo by ties/TieC16.v) ---------- *)
+Local Open Scope string_scope.
+(* serviceImpl.Add: LAddBegin = first Lock..Unlock (with the retry and the not-activated exits),
+   obj.Activate outside the lock, LAddEnd = second Lock..Unlock *)
+Definition add_skeleton : list string :=
+  ["Lock"; "Unlock"; "Add"; "Unlock"; "Unlock"; "Activate"; "Lock"; "Unlock"].
+(* serviceImpl.Remove: LRemove = Lock..Unlock then OnTerminate outside the lock; last Unlock: not found *)
+Definition remove_skeleton : list string := ["Lock"; "Unlock"; "OnTerminate"; "Unlock"].
+(* serviceImpl.Receive: LRecv = lookup under RLock, then SendError or the mailbox send *)
+Definition receive_skeleton : list string := ["RLock"; "RUnlock"; "SendError"; "send box"].
+Definition add_index_expr : string := "(rand.Uint32() << 1) >> 1".
+Definition mailbox_cap : nat := 10.
+Definition wrong_id_cond : string := "objectID != 0 && o.objectID < (1<<31) && objectID != o.objectID".
+Definition act_terminate : N := 3%N.
+Definition act_register : N := 0%N.
